@@ -127,5 +127,7 @@ func (*Service) processorToConfig(p *processor.Instance) config.Processor {
 		Plugin:   p.Plugin,
 		Settings: p.Config.Settings,
 		Workers:  p.Config.Workers,
+
+		Condition: p.Condition,
 	}
 }
